@@ -158,13 +158,14 @@ def canon_impl(l):
 
 
 def canon_model(l):
-    m = re.match(r"(.*?) \| prov(.*?) \| haz (\d+)$", l)
+    """-> (head, prov, hazard class, model predicts a read past the last iMCU row)"""
+    m = re.match(r"(.*?) \| prov(.*?) \| haz (\d+) over=(\d)$", l)
     if m:
-        return m.group(1), [int(x) for x in m.group(2).split()], int(m.group(3))
-    m = re.match(r"(tj .*?) \| haz (\d+)$", l)
+        return m.group(1), [int(x) for x in m.group(2).split()], int(m.group(3)), m.group(4) == "1"
+    m = re.match(r"(tj .*?) \| haz (\d+) over=(\d)$", l)
     if m:
-        return m.group(1), None, int(m.group(2))
-    return l, None, 0
+        return m.group(1), None, int(m.group(2)), False
+    return l, None, 0, False
 
 
 def run_harness(exe, lines, timeout=1700):
@@ -320,7 +321,7 @@ def run_cases(ctx, cases, exes, drv, flavours):
         if rc != 0 or len(mlines) < len(lines):
             ctx.broken_tie("model-driver", "extracted model failed: rc=%d %s" % (rc, err[-200:]))
             mlines = None
-    model = [canon_model(mlines[i]) if mlines else (None, None, 0) for i in range(len(lines))]
+    model = [canon_model(mlines[i]) if mlines else (None, None, 0, False) for i in range(len(lines))]
     iso = [i for i in range(len(lines)) if model[i][2] == 5]
     isoset = set(iso)
     main_idx = [i for i in range(len(lines)) if i not in isoset]
@@ -343,7 +344,7 @@ def run_cases(ctx, cases, exes, drv, flavours):
     ref, _ = outs[flavours[0]]
     disagree = 0
     for i, (line, kind) in enumerate(cases):
-        mhead, mprov, hz = model[i]
+        mhead, mprov, hz, over = model[i]
         is_tj = line.startswith("T ")
         stream = ("tj" if is_tj else "lib") + ("-haz%d" % hz if hz else "")
         # ---- crashes (any flavour) ----
@@ -353,7 +354,9 @@ def run_cases(ctx, cases, exes, drv, flavours):
             if i in crash_at:
                 crashed = True
                 rc, err = crash_at[i]
-                sig = HAZ[hz] if hz in HAZ else "crash:" + ("tj" if is_tj else "lib")
+                # a crash/hang belongs to a known hazard only if the faithful model predicts the memory-unsafe
+                # step itself: a read past the last iMCU row (hazards 1..4) or the upsampler re-initialisation (5)
+                sig = HAZ[hz] if (hz == 5 or (hz in HAZ and over)) else "crash:" + ("tj" if is_tj else "lib")
                 ctx.violation("implementation %s (%s build, rc=%d)%s: %s" % (
                     "hung (killed by the harness watchdog)" if rc == -14 else "crashed",
                     fl, rc, " -- jpeg_crop_scanline re-initialises the separate upsampler while the merged one is installed" if hz == 5 else "",
@@ -366,16 +369,26 @@ def run_cases(ctx, cases, exes, drv, flavours):
             ctx.count(stream + ("-crash" if crashed else "-notrun"), 1, ("crash", hz) if crashed else None)
             continue
         ihead, iprov, px, dup = canon_impl(impl)
+        # ---- does the implementation do exactly what the faithful model predicts? ----
+        same = None
+        if mhead is not None:
+            same = (ihead == mhead)
+            if same and iprov is not None and mprov is not None:
+                mp = [dup.get(v, v) for v in mprov]
+                same = len(mp) == len(iprov) and all(a == b or b == -1 for a, b in zip(iprov, mp))
         # ---- property-level oracle (independent of the model) ----
         pbad = (py_oracle_tj if is_tj else py_oracle_lib)(line, ihead, px)
         if px is not None and px.startswith("bad"):
             pbad.append(("px", "delivered pixels differ from the full decode: " + px[:120]))
         for knd, msg in pbad:
-            if hz and knd in ("px", "scanline", "skip-return"):
+            # a failure is a KNOWN hazard only when the model predicts this very history to go wrong through one of
+            # its hazard mechanisms AND the implementation's observable behaviour equals the model's prediction
+            if hz and same and knd in ("px", "scanline", "skip-return"):
                 sig = HAZ[hz]
             else:
                 sig = knd + ":" + ("tj" if is_tj else "lib")
-            ctx.violation(msg, {"case": line, "impl": impl[:1500], "model_hazard": hz}, signature=sig)
+            ctx.violation(msg, {"case": line, "impl": impl[:1500], "model": (mlines[i] if mlines else "")[:1500], "model_hazard": hz},
+                          signature=sig)
         # ---- all builds agree ----
         for fl in flavours[1:]:
             o = outs[fl][0][i]
@@ -383,22 +396,17 @@ def run_cases(ctx, cases, exes, drv, flavours):
                 ctx.violation("builds disagree (%s vs %s)" % (flavours[0], fl), {"case": line, flavours[0]: ref[i][:800], fl: o[:800]},
                               signature=(HAZ[5] if hz == 5 else "build-disagree:" + ("tj" if is_tj else "lib")))
         # ---- model correspondence ----
-        if mhead is not None:
-            same = (ihead == mhead)
-            if same and iprov is not None and mprov is not None:
-                mp = [dup.get(v, v) for v in mprov]
-                same = len(mp) == len(iprov) and all(a == b or b == -1 for a, b in zip(iprov, mp))
-            if not same and hz != 5:
-                disagree += 1
-                if hz and not pbad:
-                    ctx.broken_tie("model-stale:hazard%d" % hz,
-                                   "the model (faithful to the code the theorems were proved about) predicts a failure of class %s "
-                                   "but the implementation now behaves like a full decode on: %s" % (HAZ[hz], line[:300]))
-                elif not pbad:
-                    if disagree <= 3:
-                        ctx.log("model/impl disagree\n  case :", line[:300], "\n  model:", (mlines[i] if mlines else "")[:400], "\n  impl :", impl[:400])
-                    ctx.broken_tie("correspondence:" + ("tj" if is_tj else "lib"),
-                                   "model and implementation differ on: %s || model=%s || impl=%s" % (line[:300], (mlines[i] if mlines else "")[:300], impl[:300]))
+        if same is False and hz != 5:
+            disagree += 1
+            if hz and not pbad:
+                ctx.broken_tie("model-stale:hazard%d" % hz,
+                               "the model (faithful to the code the theorems were proved about) predicts a failure of class %s "
+                               "but the implementation now behaves like a full decode on: %s" % (HAZ[hz], line[:300]))
+            elif not pbad:
+                if disagree <= 3:
+                    ctx.log("model/impl disagree\n  case :", line[:300], "\n  model:", (mlines[i] if mlines else "")[:400], "\n  impl :", impl[:400])
+                ctx.broken_tie("correspondence:" + ("tj" if is_tj else "lib"),
+                               "model and implementation differ on: %s || model=%s || impl=%s" % (line[:300], (mlines[i] if mlines else "")[:300], impl[:300]))
         key = re.sub(r" \| prov.*", "", ihead)[:400]
         ctx.count(stream, 1, key)
         if i % 499 == 0:
